@@ -36,6 +36,13 @@ def make(order, depth, types):
         if depth == 2:
             circuit = {'name': 'top2', 'circuits': {'d1': circuit}, 'edges': []}
             paths = {n: 'd1/' + p for n, p in paths.items()}
+        if depth == 3:
+            # two branches that use the same inner circuit label: d1/c1/<first half>, d2/c1/<rest>
+            circuit = {'name': 'top3', 'edges': [],
+                       'circuits': {'d1': {'name': 'b1', 'circuits': {'c1': subs['c1']}, 'edges': []},
+                                    'd2': {'name': 'b2', 'circuits': {'c1': dict(subs.get('c2') or subs['c1'], name='s2')},
+                                           'edges': []}}}
+            paths = {n: ('d1/c1/' if n in c1 else 'd2/c1/') + n for n in order}
     spec = {'ops': OPS, 'node_tpls': tpls, 'edge_tpls': {}, 'share': True, 'circuit': circuit}
     return spec, paths
 
@@ -46,6 +53,7 @@ def requests(order, paths, types, depth):
     po_nodes = [n for n in order if types[n] == 'po']
     first, last = order[0], order[-1]
     p = lambda n: f'{paths[n]}/{types[n]}/x'
+    depth = min(depth, 2)
     lvl = ['all'] * (depth + 1)
     allpath = '/'.join(lvl) + '/po/x'
     out.append(('dict_single_first', {'o': p(first)}, {'o': first}))
@@ -64,6 +72,8 @@ def requests(order, paths, types, depth):
     if depth >= 1:
         sub = [n for n in po_nodes if paths[n].split('/')[-2] == 'c1']
         pre = 'd1/' if depth == 2 else ''
+        if any(p_.startswith('d2/') for p_ in paths.values()):
+            sub, pre = [n for n in po_nodes if paths[n].startswith('d1/c1/')], 'd1/'
         if len(sub) > 1:
             out.append(('dict_sub_all', {'o': f'{pre}c1/all/po/x'},
                         {tuple(['o'] + paths[n].split('/') + ['po/x']): n for n in sub}))
@@ -78,7 +88,7 @@ def cases(tier, seed):
     for N in Ns:
         names = [f'n{i + 1}' for i in range(N)]
         for order in itertools.permutations(names):
-            for depth in ((0, 1) if tier == 'quick' else (0, 1, 2)):
+            for depth in ((0, 1, 2, 3) if tier != 'quick' else ((0, 1, 2, 3) if N == 3 else (0, 1))):
                 for tmix in ('same', 'mixed', 'mixed_generic'):
                     if tmix != 'same' and N < 3:
                         continue
@@ -92,7 +102,13 @@ def cases(tier, seed):
                             out.append({'spec': spec, 'paths': paths, 'types': types, 'tag': tag, 'outputs': outs,
                                         'expected': [[list(k) if isinstance(k, tuple) else k, v] for k, v in exp.items()],
                                         'vectorize': vec, 'order': list(order)})
-    return out + gvp_cases(tier)
+    # the same wildcard as input target and as output: column i of an (N, n) input reaches the node that output column i
+    # shows (C08's integrator circuits, nodes declared against the sorted order of their labels)
+    from . import C08
+    io = [dict(c, delegate='C08') for c in C08.cases('quick', seed)
+          if c['backend'] == 'default' and c['solver'] == 'euler' and not c.get('sub') and c['vectorize']
+          and any(k == 'Nn' for _, k in C08.SELECTIONS[c['struct']][c['sel']])]
+    return out + gvp_cases(tier) + io
 
 
 def gvp_cases(tier):
@@ -172,6 +188,9 @@ def run_case(case):
     from .. import build
     if case.get('gvp'):
         return run_gvp(case)
+    if case.get('delegate') == 'C08':
+        from . import C08
+        return C08.run_case(case)
     res = {'evals': 0, 'nontrivial': True}
     feats = []
     if case['tag'] == 'dict_single_and_all':
